@@ -279,13 +279,19 @@ func loopCond(ph ssa.Value, h *ssa.BasicBlock, body map[*ssa.BasicBlock]bool) (t
 
 // tRun recognises the running-index idiom for index value idx used in block blk.
 func tRun(P *Prover, loops map[*ssa.BasicBlock]map[*ssa.BasicBlock]bool, idx ssa.Value) (string, bool) {
+	why, _, _, ok := tRunPhis(P, loops, idx)
+	return why, ok
+}
+
+// tRunPhis is tRun that also returns the row counter J and the column counter I of the nest.
+func tRunPhis(P *Prover, loops map[*ssa.BasicBlock]map[*ssa.BasicBlock]bool, idx ssa.Value) (string, *ssa.Phi, *ssa.Phi, bool) {
 	K, ok := idx.(*ssa.Phi)
 	if !ok {
-		return "", false
+		return "", nil, nil, false
 	}
 	inner := loops[K.Block()]
 	if inner == nil {
-		return "", false
+		return "", nil, nil, false
 	}
 	// inner loop counter I: phi in the same header, init 0, step 1, test I < J
 	for _, in := range K.Block().Instrs {
@@ -361,9 +367,9 @@ func tRun(P *Prover, loops map[*ssa.BasicBlock]map[*ssa.BasicBlock]bool, idx ssa
 		}
 		// the increment must be unconditional: exactly one +1 per inner iteration was checked through
 		// the back-edge values; every inner back edge carries K+1, so no iteration skips it
-		return fmt.Sprintf("running index over for %s { for %s := 0; %s < %s } (invariant index = %s(%s-1)/2 + %s)", valName(J), valName(I), valName(I), valName(J), valName(J), valName(J), valName(I)), true
+		return fmt.Sprintf("running index over for %s { for %s := 0; %s < %s } (invariant index = %s(%s-1)/2 + %s)", valName(J), valName(I), valName(I), valName(J), valName(J), valName(J), valName(I)), J, I, true
 	}
-	return "", false
+	return "", nil, nil, false
 }
 
 // tStride: the index contains a phi K that walks down a column of the triangle in step with a row
@@ -743,6 +749,429 @@ func ruleEdgeByte(c *Ctx, pkgRel string) *RuleResult {
 				if bad != "" {
 					r.find(name+":"+src+" numeric use", c.instrPos(ld), "%s uses the numeric value of the adjacency byte %s (%s): any non-zero byte is an edge (NewDense copies the caller's bytes verbatim), so this is only right for graphs whose bytes happen to be 0 or 1", name, src, bad)
 				}
+			}
+		}
+	}
+	return r
+}
+
+// ruleDegSync: wherever a function records an edge in packed-triangle storage (or finds one
+// recorded) and, in the same step, counts it into a slice that becomes the DegreeSequence of the
+// graph it returns, the two entries it increments are those of the edge's own end points: the row J
+// and the column I of the cell. Indices are compared as expressions over the same values (byte
+// arithmetic read as integer arithmetic on both sides).
+func ruleDegSync(c *Ctx, files func(string) bool) *RuleResult {
+	r := &RuleResult{Rule: "DEGSYNC", Doc: "an edge recorded at cell (I,J) of the packed triangle is counted into the degree sequence of the returned graph at exactly the entries I and J", MinInst: 3}
+	gp := c.ByPath[c.Mod+"/graph"]
+	if gp == nil {
+		failf("package graph not loaded")
+	}
+	for _, fn := range c.Funcs {
+		if fn.Synthetic != "" || fn.Blocks == nil {
+			continue
+		}
+		if !files(c.Fset.Position(fn.Pos()).Filename) {
+			continue
+		}
+		// slices that become a DegreeSequence
+		deg := map[ssa.Value]bool{}
+		for _, b := range fn.Blocks {
+			for _, in := range b.Instrs {
+				st, ok := in.(*ssa.Store)
+				if !ok {
+					continue
+				}
+				fa, ok := st.Addr.(*ssa.FieldAddr)
+				if !ok {
+					continue
+				}
+				stt, ok := fa.X.Type().Underlying().(*types.Pointer).Elem().Underlying().(*types.Struct)
+				if !ok || stt.Field(fa.Field).Name() != "DegreeSequence" {
+					continue
+				}
+				deg[stripAll(st.Val)] = true
+			}
+		}
+		if len(deg) == 0 {
+			continue
+		}
+		var P *Prover
+		var loops map[*ssa.BasicBlock]map[*ssa.BasicBlock]bool
+		name := c.short(fn)
+		for _, b := range fn.Blocks {
+			type inc struct {
+				idx ssa.Value
+				in  ssa.Instruction
+			}
+			var incs []inc
+			for _, in := range b.Instrs {
+				st, ok := in.(*ssa.Store)
+				if !ok {
+					continue
+				}
+				ia, ok := st.Addr.(*ssa.IndexAddr)
+				if !ok || !deg[stripAll(ia.X)] {
+					continue
+				}
+				add, ok := st.Val.(*ssa.BinOp)
+				if !ok || add.Op != token.ADD {
+					continue
+				}
+				if one, isK := constInt(add.Y); !isK || one != 1 {
+					continue
+				}
+				ld, ok := add.X.(*ssa.UnOp)
+				if !ok || ld.Op != token.MUL {
+					continue
+				}
+				if la, ok := ld.X.(*ssa.IndexAddr); !ok || stripAll(la.X) != stripAll(ia.X) {
+					continue
+				}
+				incs = append(incs, inc{ia.Index, in})
+			}
+			if len(incs) == 0 {
+				continue
+			}
+			if P == nil {
+				P = NewProver(c, fn)
+				loops = loopsOf(fn)
+			}
+			// the edge event of this block: a non-zero store into a byte slice here, or the test of a
+			// byte of a byte slice against zero on the edge into this block
+			var cell ssa.Value
+			what := ""
+			for _, in := range b.Instrs {
+				st, ok := in.(*ssa.Store)
+				if !ok || !isByte(st.Val.Type()) {
+					continue
+				}
+				if k, isK := constInt(st.Val); !isK || k == 0 {
+					continue
+				}
+				if ia, ok := st.Addr.(*ssa.IndexAddr); ok {
+					if _, isSl := ia.X.Type().Underlying().(*types.Slice); isSl {
+						cell, what = ia.Index, "stores"
+					}
+				}
+			}
+			if cell == nil && len(b.Preds) == 1 {
+				p := b.Preds[0]
+				if iff, ok := p.Instrs[len(p.Instrs)-1].(*ssa.If); ok {
+					if bo, ok := iff.Cond.(*ssa.BinOp); ok {
+						onTrue := p.Succs[0] == b
+						if z, isK := constInt(bo.Y); isK && z == 0 && ((onTrue && (bo.Op == token.GTR || bo.Op == token.NEQ)) || (!onTrue && bo.Op == token.EQL)) {
+							if ld, ok := bo.X.(*ssa.UnOp); ok && ld.Op == token.MUL && isByte(ld.Type()) {
+								if ia, ok := ld.X.(*ssa.IndexAddr); ok {
+									cell, what = ia.Index, "finds"
+								}
+							}
+						}
+					}
+				}
+			}
+			desc := c.srcAt(incs[0].in.Pos())
+			if cell == nil {
+				r.note("%s: %s is counted with no edge store or edge test in the same step: not judged", name, desc)
+				continue
+			}
+			// row and column of the cell
+			var J, I Poly
+			ok := false
+			if J, I, ok = P.triSplit(P.poly(cell)); !ok {
+				if J, I, ok = P.triSplit(P.polyLoose(cell)); !ok {
+					if J, I, ok = tStride(P, loops, P.poly(cell)); !ok {
+						if _, jp, ip, ok2 := tRunPhis(P, loops, strip(cell)); ok2 {
+							J, I, ok = P.poly(jp), P.poly(ip), true
+						}
+					}
+				}
+			}
+			if !ok {
+				r.note("%s: the cell index %s of the edge counted at %s is not resolved to a row and a column: not judged", name, P.showTerm(P.poly(cell)), desc)
+				continue
+			}
+			r.inst("%s: %s edge (I=%s, J=%s) and counts %d degree entries", name, what, P.showTerm(I), P.showTerm(J), len(incs))
+			same := func(v ssa.Value, q Poly) bool {
+				return P.poly(v).add(q, -1).key() == "" || P.polyLoose(v).add(q, -1).key() == ""
+			}
+			good := len(incs) == 2 && ((same(incs[0].idx, I) && same(incs[1].idx, J)) || (same(incs[0].idx, J) && same(incs[1].idx, I)))
+			r.oblig(good)
+			if !good {
+				var got []string
+				for _, x := range incs {
+					got = append(got, P.showTerm(P.polyLoose(x.idx)))
+				}
+				r.find(name+":degree entries of edge", c.instrPos(incs[0].in), "%s %s the edge between vertices %s and %s but increments the degree entries %v: the degree sequence of the returned graph does not match its edges (or the index is out of range for the last vertex)", name, what, P.showTerm(I), P.showTerm(J), got)
+			}
+		}
+	}
+	return r
+}
+
+// ruleCounts: a graph returned with hand-filled counts must have them in the range every simple
+// graph satisfies, for every accepted argument: NumberOfEdges >= 0, and every value written into
+// the degree sequence between 0 and (number of vertices) - 1. Only values computed from
+// parameters, constants and loop counters are judged (a count read from another graph is that
+// graph's invariant); increments are judged by DEGSYNC.
+func ruleCounts(c *Ctx, files func(string) bool) *RuleResult {
+	r := &RuleResult{Rule: "COUNTS", Doc: "hand-filled counts are in range for every accepted argument: NumberOfEdges >= 0 and each degree written is within [0, n-1]", MinInst: 6}
+	for _, fn := range c.Funcs {
+		if fn.Synthetic != "" || fn.Blocks == nil || !files(c.Fset.Position(fn.Pos()).Filename) {
+			continue
+		}
+		var mStores []*ssa.Store
+		deg := map[ssa.Value]bool{}
+		for _, b := range fn.Blocks {
+			for _, in := range b.Instrs {
+				st, ok := in.(*ssa.Store)
+				if !ok {
+					continue
+				}
+				fa, ok := st.Addr.(*ssa.FieldAddr)
+				if !ok {
+					continue
+				}
+				if _, isLit := fa.X.(*ssa.Alloc); !isLit {
+					continue // only graphs built here, not edits of an existing graph
+				}
+				stt, ok := fa.X.Type().Underlying().(*types.Pointer).Elem().Underlying().(*types.Struct)
+				if !ok {
+					continue
+				}
+				switch stt.Field(fa.Field).Name() {
+				case "NumberOfEdges":
+					mStores = append(mStores, st)
+				case "DegreeSequence":
+					if ms, ok := stripAll(st.Val).(*ssa.MakeSlice); ok {
+						deg[ms] = true
+					}
+				}
+			}
+		}
+		if len(mStores) == 0 && len(deg) == 0 {
+			continue
+		}
+		P := NewProver(c, fn)
+		name := c.short(fn)
+		// a make that has executed had a non-negative length
+		madeBefore := func(b *ssa.BasicBlock) []Poly {
+			var out []Poly
+			for _, x := range fn.Blocks {
+				if !(x == b || x.Dominates(b)) {
+					continue
+				}
+				for _, in := range x.Instrs {
+					if ms, ok := in.(*ssa.MakeSlice); ok {
+						out = append(out, P.poly(ms.Len).scale(-1))
+					}
+				}
+			}
+			return out
+		}
+		for _, st := range mStores {
+			m := P.poly(st.Val)
+			if k, isK := m.isConst(); isK && k >= 0 {
+				continue
+			}
+			if ctl, _ := P.locallyControlled(m); !ctl {
+				r.note("%s: NumberOfEdges = %s depends on data: not judged", name, P.showTerm(m))
+				continue
+			}
+			r.inst("%s: NumberOfEdges = %s", name, P.showTerm(m))
+			ok := P.ProveWith(m.scale(-1), st.Block(), madeBefore(st.Block()))
+			r.oblig(ok)
+			if !ok {
+				r.find(name+":NumberOfEdges may be negative", c.instrPos(st), "%s returns a graph with NumberOfEdges = %s, which is not provably >= 0 for every accepted argument (M() of the returned graph is then not its number of edges)", name, P.showTerm(m))
+			}
+		}
+		for _, b := range fn.Blocks {
+			for _, in := range b.Instrs {
+				st, ok := in.(*ssa.Store)
+				if !ok {
+					continue
+				}
+				ia, ok := st.Addr.(*ssa.IndexAddr)
+				if !ok || !deg[stripAll(ia.X)] {
+					continue
+				}
+				// increments and decrements are counted, not assigned
+				if bo, ok := st.Val.(*ssa.BinOp); ok && (bo.Op == token.ADD || bo.Op == token.SUB) {
+					if ld, ok := bo.X.(*ssa.UnOp); ok && ld.Op == token.MUL {
+						if la, ok := ld.X.(*ssa.IndexAddr); ok && stripAll(la.X) == stripAll(ia.X) {
+							continue
+						}
+					}
+				}
+				v := P.poly(st.Val)
+				src := c.srcAt(ia.Pos())
+				if src == "" {
+					src = valName(ia)
+				}
+				if ctl, _ := P.locallyControlled(v); !ctl {
+					r.note("%s: %s = %s depends on data: not judged", name, src, P.showTerm(v))
+					continue
+				}
+				n := P.lenOf(stripAll(ia.X))
+				r.inst("%s: %s = %s with %s vertices", name, src, P.showTerm(v), P.showTerm(n))
+				extra := madeBefore(b)
+				lo := P.ProveWith(v.scale(-1), b, extra)
+				hi := P.ProveWith(v.add(n, -1).add(constP(1), 1), b, extra)
+				r.oblig(lo && hi)
+				if !(lo && hi) {
+					r.find(name+":degree "+src+" out of range", c.instrPos(st), "%s writes the degree %s into %s of a graph on %s vertices; it is not provably within [0, n-1] for every accepted argument (>=0:%v, <=n-1:%v): Degrees() of the returned graph cannot be those of a simple graph", name, P.showTerm(v), src, P.showTerm(n), lo, hi)
+				}
+			}
+		}
+	}
+	return r
+}
+
+// ruleIrreflexive: every implementation of IsEdge(i, j) answers false for i == j (the graphs are
+// loop-free, and Neighbours/Degrees of every implementation exclude the vertex itself). Each
+// return value is evaluated under the assumption i == j in three-valued logic: constants, negation,
+// joins over the predecessors that stay reachable under i == j, and calls of another IsEdge with
+// equal arguments (false, by this same rule applied to every implementation). A return that is
+// definitely true is reported; one that depends on stored data is recorded and not judged.
+func ruleIrreflexive(c *Ctx, pkgRel string) *RuleResult {
+	r := &RuleResult{Rule: "IRREFLEXIVE", Doc: "no IsEdge implementation can answer true for i == j: negating, or otherwise deriving true from, the answer of an underlying loop-free graph is reported", MinInst: 3}
+	pkg := c.Pkg(pkgRel)
+	const (
+		vF = 1
+		vT = 2
+		vU = 4
+	)
+	for _, fn := range c.Funcs {
+		if fn.Name() != "IsEdge" || fn.Synthetic != "" || fn.Blocks == nil || fnPkg(fn) == nil || fnPkg(fn).Pkg != pkg.Types {
+			continue
+		}
+		sig := fn.Signature
+		if sig.Params().Len() != 2 || sig.Results().Len() != 1 {
+			continue
+		}
+		pi, pj := fn.Params[len(fn.Params)-2], fn.Params[len(fn.Params)-1]
+		P := NewProver(c, fn)
+		d := P.poly(pi).add(P.poly(pj), -1)
+		extra := []Poly{d, d.scale(-1)}
+		var same func(a, b ssa.Value, depth int) bool
+		same = func(a, b ssa.Value, depth int) bool {
+			if a == b {
+				return true
+			}
+			if depth > 6 {
+				return false
+			}
+			isP := func(v ssa.Value) bool { return v == ssa.Value(pi) || v == ssa.Value(pj) }
+			if isP(a) && isP(b) {
+				return true
+			}
+			switch x := a.(type) {
+			case *ssa.UnOp:
+				y, ok := b.(*ssa.UnOp)
+				return ok && x.Op == y.Op && same(x.X, y.X, depth+1)
+			case *ssa.IndexAddr:
+				y, ok := b.(*ssa.IndexAddr)
+				return ok && same(x.X, y.X, depth+1) && same(x.Index, y.Index, depth+1)
+			case *ssa.Index:
+				y, ok := b.(*ssa.Index)
+				return ok && same(x.X, y.X, depth+1) && same(x.Index, y.Index, depth+1)
+			case *ssa.FieldAddr:
+				y, ok := b.(*ssa.FieldAddr)
+				return ok && x.Field == y.Field && same(x.X, y.X, depth+1)
+			case *ssa.Field:
+				y, ok := b.(*ssa.Field)
+				return ok && x.Field == y.Field && same(x.X, y.X, depth+1)
+			case *ssa.BinOp:
+				y, ok := b.(*ssa.BinOp)
+				return ok && x.Op == y.Op && same(x.X, y.X, depth+1) && same(x.Y, y.Y, depth+1)
+			case *ssa.Convert:
+				y, ok := b.(*ssa.Convert)
+				return ok && same(x.X, y.X, depth+1)
+			case *ssa.Const:
+				y, ok := b.(*ssa.Const)
+				return ok && x.Value != nil && y.Value != nil && x.Value.ExactString() == y.Value.ExactString()
+			}
+			return false
+		}
+		var eval func(v ssa.Value, depth int) int
+		eval = func(v ssa.Value, depth int) int {
+			if depth > 8 {
+				return vU
+			}
+			switch x := v.(type) {
+			case *ssa.Const:
+				if x.Value != nil && x.Value.ExactString() == "true" {
+					return vT
+				}
+				return vF
+			case *ssa.UnOp:
+				if x.Op == token.NOT {
+					e := eval(x.X, depth+1)
+					out := e & vU
+					if e&vF != 0 {
+						out |= vT
+					}
+					if e&vT != 0 {
+						out |= vF
+					}
+					return out
+				}
+			case *ssa.Call:
+				name := ""
+				args := x.Call.Args
+				if x.Call.IsInvoke() {
+					name = x.Call.Method.Name()
+				} else if cal := x.Call.StaticCallee(); cal != nil {
+					name = cal.Name()
+					if cal.Signature.Recv() != nil && len(args) > 0 {
+						args = args[1:]
+					}
+				}
+				if name == "IsEdge" && len(args) == 2 && same(args[0], args[1], 0) {
+					return vF
+				}
+			case *ssa.Phi:
+				out := 0
+				for k, e := range x.Edges {
+					pred := x.Block().Preds[k]
+					ex := append(append([]Poly{}, extra...), P.edgeFacts(pred, x.Block())...)
+					if P.Unreachable(pred, ex) {
+						continue
+					}
+					out |= eval(e, depth+1)
+				}
+				if out == 0 {
+					return vF // no incoming edge is feasible: the join itself is unreachable
+				}
+				return out
+			}
+			return vU
+		}
+		name := c.short(fn)
+		nret := 0
+		for _, b := range fn.Blocks {
+			ret, ok := b.Instrs[len(b.Instrs)-1].(*ssa.Return)
+			if !ok || len(ret.Results) != 1 {
+				continue
+			}
+			nret++
+			src := fmt.Sprintf("return #%d", nret)
+			if P.Unreachable(b, extra) {
+				r.inst("%s: %s unreachable for i == j", name, src)
+				r.oblig(true)
+				continue
+			}
+			e := eval(ret.Results[0], 0)
+			switch {
+			case e&vT != 0:
+				r.inst("%s: %s can be true for i == j", name, src)
+				r.oblig(false)
+				r.find(name+":true on the diagonal", c.instrPos(ret), "%s: for i == j, %s evaluates to true (the negation of, or a constant instead of, a loop-free graph's answer): the graph reports a loop at every vertex, while its Neighbours and Degrees exclude the vertex itself", name, src)
+			case e == vF:
+				r.inst("%s: %s is false for i == j", name, src)
+				r.oblig(true)
+			default:
+				r.inst("%s: %s depends on stored data for i == j (not judged)", name, src)
+				r.note("%s: %s: the answer for i == j is read from the representation (its own invariant keeps loops out): not judged", name, src)
 			}
 		}
 	}
